@@ -45,7 +45,10 @@ static void finalizer(void *ctx) {
 static void notif_fn(void *ctx) { (void)ctx; atomic_fetch_add(&delivered, 1); atomic_fetch_add(&progress, 1); }
 static void item_fn(void *ctx) { (void)ctx; atomic_fetch_add(&items_run, 1); atomic_fetch_add(&progress, 1); }
 static void work_fn(void *ctx) { (void)ctx; usleep(200); atomic_fetch_add(&progress, 1); }
-static void specific_dtor(void *v) { (void)v; atomic_fetch_add(&specific_dtor_runs, 1); atomic_fetch_add(&progress, 1); }
+// the value stored under the key is the number of the script that stored it: a destructor that runs late (it is submitted
+// asynchronously when the queue is disposed) is counted for its own script, never for a later one
+static _Atomic int dtor_by_script[1 << 16]; static int lane_no;
+static void specific_dtor(void *v) { atomic_fetch_add(&dtor_by_script[(intptr_t)v & 0xffff], 1); atomic_fetch_add(&specific_dtor_runs, 1); atomic_fetch_add(&progress, 1); }
 static void nop(void *c) { (void)c; }
 static _Atomic int cancel_done;
 static void cancel_done_fn(void *c) { (void)c; atomic_fetch_add(&cancel_done, 1); atomic_fetch_add(&progress, 1); }
@@ -156,7 +159,8 @@ static void run_lane_script(const char *ops, const char *exp) {
 	dispatch_source_t src = NULL; dispatch_object_t shown; shown._dq = q;
 	atomic_store(&fin_runs, 0); atomic_store(&fin_ctx_id, 0); atomic_store(&fin_queue_id, -1); atomic_store(&items_run, 0);
 	atomic_store(&specific_dtor_runs, 0);
-	long x = 1, susp = 0; int hasfin = 0; static char skey;
+	long x = 1, susp = 0; int hasfin = 0, hasspec = 0; static char skey; lane_no = (lane_no + 1) & 0xffff; if (!lane_no) lane_no = 1;
+	atomic_store(&dtor_by_script[lane_no], 0);
 	printf("L"); int opno = 0;
 	for (const char *p = ops; *p; p++, opno++) {
 		switch (*p) {
@@ -172,7 +176,7 @@ static void run_lane_script(const char *ops, const char *exp) {
 			dispatch_resume(q); wait_for(&items_run, before + 1); susp++; } break;   // the drain is interrupted with an item left: _dispatch_queue_invoke_finish
 		case 'S': { int before = atomic_load(&items_run); dispatch_async_f(q, q, suspend_self_fn); wait_for(&items_run, before + 1); susp++; } break;  // the drain is interrupted by a suspension: _dispatch_queue_invoke_finish
 		case 'x': hasfin = 1; dispatch_set_context(q, ctxbuf + 3); dispatch_set_finalizer_f(q, finalizer); break;
-		case 'y': dispatch_queue_set_specific(q, &skey, (void *)1, specific_dtor); break;
+		case 'y': hasspec = 1; dispatch_queue_set_specific(q, &skey, (void *)(intptr_t)lane_no, specific_dtor); break;
 		case 'm': src = dispatch_source_create(DISPATCH_SOURCE_TYPE_TIMER, 0, 0, q); dispatch_source_set_event_handler_f(src, nop);
 			atomic_store(&cancel_done, 0); dispatch_source_set_cancel_handler_f(src, cancel_done_fn); shown._ds = src; break;
 		case 'M': dispatch_source_set_timer(src, dispatch_time(DISPATCH_TIME_NOW, 3600 * NSEC_PER_SEC), DISPATCH_TIME_FOREVER, 0);
@@ -200,23 +204,24 @@ static void run_lane_script(const char *ops, const char *exp) {
 		fflush(stdout);
 	}
 	if (hasfin && x <= 0) wait_for(&fin_runs, 1);
+	if (hasspec && x <= 0) wait_for(&dtor_by_script[lane_no], 1);     // event based: the destructor is submitted at dispose
 	usleep(3000);
 	printf(" | %d %d %d %d %d\n", atomic_load(&fin_runs), atomic_load(&fin_ctx_id) == 3, atomic_load(&fin_queue_id) == 5,
-			atomic_load(&specific_dtor_runs), atomic_load(&items_run));
+			atomic_load(&dtor_by_script[lane_no]), atomic_load(&items_run));
 	fflush(stdout);
 }
 
 // ------------------------------------------------------------------------------------------------ stress
 #define MAXT 6
 typedef struct { int idx, nops, round; uint64_t rng; } targ_t;
-static dispatch_group_t sg; static _Atomic int registered; static pthread_barrier_t bar;
+static dispatch_group_t sg; static _Atomic long t_e; static _Atomic int registered; static pthread_barrier_t bar;
 static inline uint64_t rnd(uint64_t *s) { uint64_t x = *s; x ^= x << 13; x ^= x >> 7; x ^= x << 17; return *s = x; }
 // The harness-side book of references of one level: low 32 bits = references owned (by "the application": nobody in
 // particular), high 32 bits = calls in progress that USE the object through one of them.  Any number of threads may be
 // inside calls through the same reference; a release takes one reference out, and while calls are in progress it never
 // takes the last one (the client contract of Model/Refcnt.v: call_guard).
 typedef _Atomic uint64_t book_t;
-static book_t bx, bi, be;   // external references, internal references, outstanding enters (an enter that has returned keeps the group alive too)
+static book_t bx, bi;
 static int borrow(book_t *b) { uint64_t v = atomic_load(b);
 	while ((uint32_t)v >= 1) if (atomic_compare_exchange_weak(b, &v, v + (1ull << 32))) return 1;
 	return 0; }
@@ -239,18 +244,16 @@ static void *stress_thr(void *a) {
 	pthread_barrier_wait(&bar);
 	for (int k = 0; k < t->nops; k++) {
 		unsigned c = (unsigned)(rnd(&r) % 100);
-		if (c >= 44 && c < 54) { if (take_out(&be, 1)) { CALL(OP_LEAVE, 0); dispatch_group_leave(sg); RET(); } continue; }   // needs only its enter
+		if (c >= 44 && c < 54) { if (take(&t_e, 1, 0)) { CALL(OP_LEAVE, 0); dispatch_group_leave(sg); RET(); } continue; }   // needs only its enter
 		if (c >= 54 && c < 62) { if (take_out(&bx, 1)) { CALL(OP_RELEASE, 0); dispatch_release(sg); RET(); } continue; }
 		if (c >= 62 && c < 68) { unsigned n = 1 + (unsigned)(rnd(&r) & 1);
 			if (take_out(&bi, n)) { CALL(OP_IRELEASE, n); if (n == 1) _dispatch_release(sg); else _dispatch_release_2(sg); RET(); } continue; }
 		// every other call USES the object through a reference somebody owns: an external one, else an internal one; several
 		// threads are routinely inside such calls through the same reference
-		// ... or under an outstanding enter (the idiom of using the group from a group block after the last release)
 		int viaint = 0;
-		if (((r >> 17) & 3) == 0 && borrow(&bi)) viaint = 1; else if (((r >> 17) & 3) == 1 && borrow(&be)) viaint = 2;
-		else if (borrow(&bx)) viaint = 0; else if (borrow(&bi)) viaint = 1; else if (borrow(&be)) viaint = 2; else break;
-		book_t *bk = viaint == 2 ? &be : viaint ? &bi : &bx; int fl = 100 * viaint;
-		if (c < 24) { CALL(OP_ENTER + fl, 0); dispatch_group_enter(sg); RET(); own(&be, 1); }
+		if (((r >> 17) & 3) == 0 && borrow(&bi)) viaint = 1; else if (borrow(&bx)) viaint = 0; else if (borrow(&bi)) viaint = 1; else break;
+		book_t *bk = viaint ? &bi : &bx; int fl = viaint ? 100 : 0;
+		if (c < 24) { CALL(OP_ENTER + fl, 0); dispatch_group_enter(sg); RET(); atomic_fetch_add(&t_e, 1); }
 		else if (c < 44) { CALL(OP_NOTIFY + fl, 0); atomic_fetch_add(&registered, 1); dispatch_group_notify_f(sg, nq, NULL, notif_fn); RET(); }
 		else if (c < 78) { if (!viaint) { CALL(OP_RETAIN, 0); dispatch_retain(sg); RET(); own(&bx, 1); } }
 		else if (c < 90) { int n = 1 + (int)(rnd(&r) & 1); CALL(OP_IRETAIN + fl, n); if (n == 1) _dispatch_retain(sg); else _dispatch_retain_2(sg); RET(); own(&bi, n); }
@@ -271,10 +274,10 @@ static void *dropper(void *a) {
 	for (;;) {
 		int did = 0;
 		if (d->kind == 0) { if (take_out(&bx, 1)) { CALL(OP_RELEASE, 0); dispatch_release(sg); RET(); did = 1; } }
-		else if (d->kind == 1) { if (take_out(&be, 1)) { CALL(OP_LEAVE, 0); dispatch_group_leave(sg); RET(); did = 1; } }
+		else if (d->kind == 1) { if (take(&t_e, 1, 0)) { CALL(OP_LEAVE, 0); dispatch_group_leave(sg); RET(); did = 1; } }
 		else { if (take_out(&bi, 1)) { CALL(OP_IRELEASE, 1); _dispatch_release(sg); RET(); did = 1; } }
 		if (!did) { if (*d->stop) { // workers are done: nothing is borrowed any more; finish what is left
-				uint64_t v = d->kind == 0 ? atomic_load(&bx) : d->kind == 2 ? atomic_load(&bi) : atomic_load(&be);
+				uint64_t v = d->kind == 0 ? atomic_load(&bx) : d->kind == 2 ? atomic_load(&bi) : (uint64_t)atomic_load(&t_e);
 				if ((uint32_t)v == 0) break; }
 			sched_yield(); }
 	}
@@ -293,7 +296,7 @@ static int stress(uint64_t seed, int rounds, int permille) {
 		sg = dispatch_group_create(); quarantined = sg; atomic_store(&freed_flag, 0);
 		atomic_store(&fin_runs, 0); atomic_store(&fin_ctx_id, 0); atomic_store(&delivered, 0); atomic_store(&registered, 0);
 		dispatch_set_context(sg, ctxbuf + 4); dispatch_set_finalizer_f(sg, finalizer);
-		atomic_store(&bx, 1); atomic_store(&bi, 0); atomic_store(&be, 0);
+		atomic_store(&bx, 1); atomic_store(&bi, 0); atomic_store(&t_e, 0);
 		// untrack the previous group, keep the queue words
 		dv_untrack_all(); dv_track(nq, 16, 2);
 		dv_track(sg, sizeof(struct dispatch_group_s), 1);
